@@ -10,6 +10,7 @@ import (
 	"crypto/ecdsa"
 	"crypto/elliptic"
 	"crypto/rand"
+	"crypto/rsa"
 	"crypto/tls"
 	"crypto/x509"
 	"encoding/base64"
@@ -17,17 +18,24 @@ import (
 	"fmt"
 	"net/http"
 	"net/http/httptest"
+	"os"
 	"strconv"
+	"sync"
 	"time"
 
 	"go.step.sm/crypto/jose"
+	"go.step.sm/crypto/minica"
 	"go.step.sm/crypto/randutil"
 	"golang.org/x/crypto/ssh"
 
 	"github.com/smallstep/certificates/api"
 	"github.com/smallstep/certificates/authority"
+	"github.com/smallstep/certificates/authority/config"
 	"github.com/smallstep/certificates/authority/provisioner"
+	"github.com/smallstep/certificates/cas/apiv1"
+	"github.com/smallstep/certificates/cas/softcas"
 	"github.com/smallstep/certificates/db"
+	"github.com/smallstep/certificates/scep"
 	"verif/harness/fixture"
 )
 
@@ -52,33 +60,96 @@ func (e *Env) Close() {
 	}
 }
 
+// rsaKey is shared by every SCEP case: the SCEP decrypter must be an RSA key and generating
+// one per case would dominate the run time. It is only key material, never state.
+var (
+	rsaOnce sync.Once
+	rsaKey  *rsa.PrivateKey
+)
+
+func sharedRSA() *rsa.PrivateKey {
+	rsaOnce.Do(func() { rsaKey, _ = rsa.GenerateKey(rand.Reader, 2048) })
+	return rsaKey
+}
+
+func hooks(base, path, kind string, n int) []*provisioner.Webhook {
+	var whs []*provisioner.Webhook
+	for i := 0; i < n; i++ {
+		whs = append(whs, &provisioner.Webhook{ID: fmt.Sprintf("%s%d", path, i), Name: fmt.Sprintf("%s%d", path, i),
+			URL: fmt.Sprintf("%s/%s/%d", base, path, i), Kind: kind, CertType: "ALL",
+			Secret: base64.StdEncoding.EncodeToString([]byte("secret"))})
+	}
+	return whs
+}
+
 func newEnv(k *Case) (*Env, error) {
 	e := &Env{rec: &Recorder{}, extra: map[string]any{}}
 	e.srv = webhookServer()
-	var whs []*provisioner.Webhook
-	for i := 0; i < k.E; i++ {
-		whs = append(whs, &provisioner.Webhook{ID: fmt.Sprintf("e%d", i), Name: fmt.Sprintf("enrich%d", i),
-			URL: fmt.Sprintf("%s/enrich/%d", e.srv.URL, i), Kind: "ENRICHING", CertType: "ALL",
-			Secret: base64.StdEncoding.EncodeToString([]byte("secret"))})
-	}
-	for i := 0; i < k.A; i++ {
-		whs = append(whs, &provisioner.Webhook{ID: fmt.Sprintf("a%d", i), Name: fmt.Sprintf("authz%d", i),
-			URL: fmt.Sprintf("%s/authorize/%d", e.srv.URL, i), Kind: "AUTHORIZING", CertType: "ALL",
-			Secret: base64.StdEncoding.EncodeToString([]byte("secret"))})
-	}
+	whs := append(hooks(e.srv.URL, "enrich", "ENRICHING", k.E), hooks(e.srv.URL, "authorize", "AUTHORIZING", k.A)...)
 	closed, release := closedAddr()
 	e.closer = append(e.closer, release)
 	tr := &faultTransport{rec: e.rec, base: &http.Transport{DisableKeepAlives: true}, closed: closed}
+
+	// key material is made here (not by the fixture) so that the CAS can be wrapped and, for
+	// SCEP, the intermediate key is an RSA key the SCEP authority can decrypt with
+	var mopts []minica.Option
+	if k.Op == "scep" {
+		mopts = append(mopts, minica.WithGetSignerFunc(func() (crypto.Signer, error) { return sharedRSA(), nil }))
+	}
+	mca, err := minica.New(append(mopts, minica.WithName("Verif"))...)
+	if err != nil {
+		e.Close()
+		return nil, err
+	}
+	jwk, err := jose.GenerateJWK("EC", "P-256", "ES256", "sig", "", 0)
+	if err != nil {
+		e.Close()
+		return nil, err
+	}
+	if jwk.KeyID, err = jose.Thumbprint(jwk); err != nil {
+		e.Close()
+		return nil, err
+	}
+	sshU, _ := ecdsa.GenerateKey(elliptic.P256(), rand.Reader)
+	sshH, _ := ecdsa.GenerateKey(elliptic.P256(), rand.Reader)
+	soft, err := softcas.New(context.Background(), apiv1.Options{
+		CertificateChain: []*x509.Certificate{mca.Intermediate}, Signer: mca.Signer})
+	if err != nil {
+		e.Close()
+		return nil, err
+	}
+	extra := []authority.Option{
+		authority.WithWebhookClient(&http.Client{Transport: tr, Timeout: 300 * time.Millisecond}),
+		authority.WithX509CAService(&faultCAS{SoftCAS: soft, rec: e.rec}),
+	}
 	yes := true
+	provs := provisioner.List{
+		&provisioner.SSHPOP{Type: "SSHPOP", Name: "sshpop", Claims: &provisioner.Claims{EnableSSHCA: &yes}},
+		&provisioner.ACME{Type: "ACME", Name: "acme", Options: &provisioner.Options{Webhooks: whs},
+			Challenges: []provisioner.ACMEChallenge{provisioner.HTTP_01}},
+	}
+	if k.Op == "scep" {
+		all := append(append([]*provisioner.Webhook{}, whs...), hooks(e.srv.URL, "challenge", "SCEPCHALLENGE", k.CH)...)
+		all = append(all, hooks(e.srv.URL, "notify", "NOTIFYING", k.N)...)
+		sp := &provisioner.SCEP{Type: "SCEP", Name: "scep", MinimumPublicKeyLength: 2048, EncryptionAlgorithmIdentifier: 2,
+			Options: &provisioner.Options{Webhooks: all}}
+		if k.CH == 0 {
+			sp.ChallengePassword = scepSecret
+		}
+		provs = append(provs, sp)
+		extra = append(extra, authority.WithFullSCEPOptions(&scep.Options{
+			Roots: []*x509.Certificate{mca.Root}, Intermediates: []*x509.Certificate{mca.Intermediate},
+			SignerCert: mca.Intermediate, Signer: sharedRSA(), Decrypter: sharedRSA(), DecrypterCert: mca.Intermediate,
+			SCEPProvisionerNames: []string{"scep"}}))
+		e.extra["cacert"] = mca.Intermediate
+	}
 	o := fixture.Opts{
-		SSH:        true,
-		JWKClaims:  &provisioner.Claims{EnableSSHCA: &yes},
-		JWKOptions: &provisioner.Options{Webhooks: whs},
-		Provisioners: provisioner.List{
-			&provisioner.SSHPOP{Type: "SSHPOP", Name: "sshpop", Claims: &provisioner.Claims{EnableSSHCA: &yes}},
-			&provisioner.ACME{Type: "ACME", Name: "acme", Options: &provisioner.Options{Webhooks: whs}},
-		},
-		Extra: []authority.Option{authority.WithWebhookClient(&http.Client{Transport: tr, Timeout: 300 * time.Millisecond})},
+		SSH:          true,
+		From:         &fixture.CA{MiniCA: mca, JWK: jwk, SSHUser: sshU, SSHHost: sshH},
+		JWKClaims:    &provisioner.Claims{EnableSSHCA: &yes},
+		JWKOptions:   &provisioner.Options{Webhooks: whs},
+		Provisioners: provs,
+		Extra:        extra,
 		WrapDB: func(a db.AuthDB) db.AuthDB {
 			d, ok := a.(*db.DB)
 			if !ok {
@@ -89,11 +160,17 @@ func newEnv(k *Case) (*Env, error) {
 			return d
 		},
 	}
+	if k.CRL {
+		o.CRL = &config.CRLConfig{Enabled: true, GenerateOnRevoke: true, CacheDuration: &provisioner.Duration{Duration: 24 * time.Hour}}
+	}
 	if k.NoDB {
 		o.NoDB, o.WrapDB = true, nil
 	}
 	ca, err := fixture.New(o)
 	if err != nil {
+		if os.Getenv("VERIF_DEBUG") != "" {
+			fmt.Fprintln(os.Stderr, "fixture:", err)
+		}
 		e.Close()
 		return nil, err
 	}
